@@ -452,7 +452,7 @@ impl Compiler {
             ObjectPropertyKey::Number(lit) => {
                 // Number keys need to be converted to string
                 let num_str = match &lit.value {
-                    LiteralValue::Number(n) => crate::value::JsString::from(n.to_string()),
+                    LiteralValue::Number(n) => crate::value::JsString::from(crate::value::number_to_string(*n)),
                     _ => crate::value::JsString::from("0"),
                 };
                 self.builder.add_string(num_str)?
